@@ -30,7 +30,7 @@ RULE = (
     'per loader (lammps, vasprun, gromacs): the recorded cache write log -> every crash state (file absent, empty, '
     'every byte prefix), garbage contents {NUL, text, proto-only, repeated bytes, half of a valid pickle + noise}; '
     'round trip to_cache/from_cache of 4 base trajectories in both internal modes; all ordered pairs of argument '
-    'variants (first load populates the cache, second must equal a cache-less parse with ITS arguments or raise the same '
+    'variants incl. equal-key type_mappings and a sibling vasprun.run1.xml (first load populates the cache, second must equal a cache-less parse with ITS arguments or raise the same '
     'exception); BFS over histories of {load(v), crash(v,k), garbage(v,g), delete(v)} up to depth 3 (thorough 4); '
     'evaluation = one (fault state, recovery) execution; distinct = distinct directory states'
 )
